@@ -123,13 +123,19 @@ func (hm *HashMap) Query(q *query.Query, local, internal bool) (*iterator.Iterat
 }
 
 func (hm *HashMap) queryExecutor(queryIter *iterator.Iterator, q *query.Query, local, internal bool) {
+	// Work on a snapshot: records may not be locked while holding the database
+	// lock, as writers hold the lock of the record they are putting.
 	hm.dbLock.RLock()
-	defer hm.dbLock.RUnlock()
+	records := make(map[string]record.Record, len(hm.db))
+	for key, r := range hm.db {
+		records[key] = r
+	}
+	hm.dbLock.RUnlock()
 
 	var err error
 
 mapLoop:
-	for key, record := range hm.db {
+	for key, record := range records {
 		record.Lock()
 		if !q.MatchesKey(key) ||
 			!q.MatchesRecord(record) ||
@@ -173,6 +179,19 @@ func (hm *HashMap) Injected() bool {
 
 // MaintainRecordStates maintains records states in the database.
 func (hm *HashMap) MaintainRecordStates(ctx context.Context, purgeDeletedBefore time.Time, shadowDelete bool) error {
+	// Records may not be locked while holding the database lock, as writers
+	// hold the lock of the record they are putting: mark them afterwards.
+	var expired []record.Record
+	defer func() {
+		for _, r := range expired {
+			r.Lock()
+			if meta := r.Meta(); meta.Deleted == 0 {
+				meta.Deleted = meta.Expires
+			}
+			r.Unlock()
+		}
+	}()
+
 	hm.dbLock.Lock()
 	defer hm.dbLock.Unlock()
 
@@ -192,9 +211,7 @@ func (hm *HashMap) MaintainRecordStates(ctx context.Context, purgeDeletedBefore 
 		case meta.Deleted == 0 && meta.Expires > 0 && meta.Expires < now:
 			if shadowDelete {
 				// mark as deleted
-				record.Lock()
-				meta.Deleted = meta.Expires
-				record.Unlock()
+				expired = append(expired, record)
 
 				continue
 			}
